@@ -498,16 +498,16 @@ def rule_own_tree(ctx: RuleContext, p: Program, rid: str) -> None:
 
 def run(ctx: RuleContext, p: Program) -> None:
     tcs = build_tree_classes(p)
-    rule_pair_detach(ctx, p, 'PAIR-DETACH')
-    rule_pair_tree(ctx, p, 'PAIR-TREE')
-    rule_sign_idx_tokens(ctx, p, 'SIGN-IDX')
-    gen.rule_cover_reattach(ctx, p, tcs, 'COVER-REATTACH')
+    ctx.try_rule(rule_pair_detach, p, 'PAIR-DETACH')
+    ctx.try_rule(rule_pair_tree, p, 'PAIR-TREE')
+    ctx.try_rule(rule_sign_idx_tokens, p, 'SIGN-IDX')
+    ctx.try_rule(gen.rule_cover_reattach, p, tcs, 'COVER-REATTACH')
     ctx.require_min('COVER-REATTACH', 34)
-    handmodels.rule_hand_reattach(ctx, p, 'COVER-REATTACH')
-    gen.rule_border(ctx, p, tcs, 'BORDER')
+    ctx.try_rule(handmodels.rule_hand_reattach, p, 'COVER-REATTACH')
+    ctx.try_rule(gen.rule_border, p, tcs, 'BORDER')
     ctx.require_min('BORDER', 68)
-    rule_pop_self(ctx, p, 'POP-SELF')
-    rule_own_tree(ctx, p, 'OWN-TREE')
+    ctx.try_rule(rule_pop_self, p, 'POP-SELF')
+    ctx.try_rule(rule_own_tree, p, 'OWN-TREE')
     ctx.not_decided += ['nesting / non-overlap of child spans (runtime)', 'single ownership of every significant token (runtime)',
                         'that every tree leaf is currently in the store (runtime)']
     ctx.assumptions += ['reattach(store) re-binds a whole subtree (COVER-REATTACH)', 'tokens need no reattach (their store is their handle)']
